@@ -418,7 +418,7 @@ class ExplicitSymplecticIntegrator(TableauIntegrator):
 
     def step(self, rhs, initial_time, initial_state, constants, timestep):
         current_time = D.ar_numpy.copy(initial_time)
-        self.dState *= 0.0
+        self.dState[...] = 0.0
 
         for stage in range(D.ar_numpy.shape(self.tableau_intermediate)[0]):
             if stage == 0:
